@@ -493,6 +493,13 @@ func c16RealOracle(raw json.RawMessage) any {
 	}
 	if !o.NoLoad {
 		out["load"] = c16RealLoad(o.toArgs(o.Discard))
+		if o.ListForm && len(o.Environment) > 0 {
+			// the loader stage "resolve environment entries of the form `- VAR`" on its own:
+			// no normalization, no Project method
+			a := o.toArgs(false)
+			a.SkipNormalization, a.SkipResolveEnvironment = true, true
+			out["load_seq_only"] = c16RealLoad(a)
+		}
 	}
 	return out
 }
@@ -676,6 +683,35 @@ func c16JudgeOracle(args, real, drv json.RawMessage) *core.Verdict {
 				if obs.LabelFiles[i] != l.Path {
 					return core.Fail("file-refs-changed:"+via, "label_file reference changed without the discard option")
 				}
+			}
+		}
+	}
+	// sequence-form entries without value are resolved while loading, even with normalization and the Project method off
+	if raw, ok := r["load_seq_only"]; ok && spec.Err == nil {
+		if v := core.CrashVerdict(raw); v != nil {
+			return v
+		}
+		var out c16Out
+		json.Unmarshal(raw, &out)
+		if out.Err != nil {
+			return core.Fail("unexpected-error:load_seq_only:"+strings.SplitN(*out.Err, ":", 2)[0], "load without normalization fails: "+*out.Err)
+		}
+		obs := out.Ok["s"]
+		for _, kv := range o.Environment {
+			k := *kv[0]
+			want := kv[1]
+			if want == nil {
+				if pv, ok := o.Penv[k]; ok {
+					want = &pv
+				}
+			}
+			got, gok := obs.Environment[k]
+			if !gok || (want == nil) != (got == nil) || (want != nil && *want != *got) {
+				g := "absent"
+				if gok {
+					g = c16PStr(got)
+				}
+				return core.Fail("valueless-not-resolved-while-loading:"+c16Sig(o, k, false), fmt.Sprintf("environment[%s] = %s after a load without normalization / resolution, expected %s", k, g, c16PStr(want)))
 			}
 		}
 	}
